@@ -588,14 +588,23 @@ var c13Placeholders = []struct {
 	{"property-unknown", "${property:@PROPS@#nosuch}", true},
 	{"property-empty-name", "${property:@PROPS@#}", false},
 	{"property-value-with-equals", "${property:@PROPS@#k2}", false},
+	// a negative number for an unsigned field (decoded into `U uint`): written out, and through the environment
+	{"negative-for-unsigned/plain", "-5", true},
+	{"negative-for-unsigned/env", "${env:VERIF_C13_NEG}", true},
+	{"negative-for-unsigned/property", "${property:@PROPS@#neg}", true},
 }
 
-const c13Properties = "# comment\njustkey\nkey=7\n=8\n\nk2==x\nlast"
+func init() { os.Setenv("VERIF_C13_NEG", "-5") }
+
+const c13Properties = "# comment\njustkey\nkey=7\nneg=-5\n=8\n\nk2==x\nlast"
 
 func c13Config(r *R) {
 	w := r.W
 	ph := c13Placeholders[w.Draw(len(c13Placeholders))]
 	target := w.Draw(4)
+	if strings.HasPrefix(ph.Name, "negative-for-unsigned") {
+		target = 4
+	}
 	r.Sample(map[string]any{"mode": "config", "placeholder": ph.Val, "target_field": target})
 	r.Note("config/" + ph.Name)
 	r.NonTrivial()
@@ -625,6 +634,15 @@ func c13Config(r *R) {
 				N int `config:"n"`
 			}
 			err = config.DecodeAndValidate(map[string]interface{}{"n": val}, &c)
+		case 4: // unsigned field
+			var c struct {
+				U uint `config:"u"`
+			}
+			err = config.DecodeAndValidate(map[string]interface{}{"u": val}, &c)
+			if err == nil {
+				err2 := fmt.Sprintf("accepted as %d", c.U)
+				r.Note("config/unsigned-" + err2)
+			}
 		case 2: // duration inside a component config
 			_, err = decodeSchedule(map[string]interface{}{"type": "const", "ops": 1, "duration": val})
 		default: // a provider's file name
